@@ -1,5 +1,7 @@
 #include "context.h"
 #include "item.h"
+#include <stdexcept>
+#include <string>
 
 namespace ratio
 {
@@ -12,11 +14,20 @@ namespace ratio
             delete ptr;          // we can hence delete the environment..
     }
 
-    context::operator expr() const { return expr(static_cast<item *>(ptr)); }
-    CORE_EXPORT context::operator bool_expr() const { return bool_expr(static_cast<bool_item *>(ptr)); }
-    CORE_EXPORT context::operator arith_expr() const { return arith_expr(static_cast<arith_item *>(ptr)); }
-    CORE_EXPORT context::operator string_expr() const { return string_expr(static_cast<string_item *>(ptr)); }
-    CORE_EXPORT context::operator var_expr() const { return var_expr(static_cast<var_item *>(ptr)); }
+    // an expression used where another kind of expression is expected is an error of the program being read..
+    template <typename T>
+    static T *checked(env *const ptr, const char *const what)
+    {
+        if (T *p = dynamic_cast<T *>(ptr))
+            return p;
+        throw std::invalid_argument(std::string("type mismatch: ") + what + " expression expected..");
+    }
+
+    context::operator expr() const { return expr(checked<item>(ptr, "an item")); }
+    CORE_EXPORT context::operator bool_expr() const { return bool_expr(checked<bool_item>(ptr, "a boolean")); }
+    CORE_EXPORT context::operator arith_expr() const { return arith_expr(checked<arith_item>(ptr, "an arithmetic")); }
+    CORE_EXPORT context::operator string_expr() const { return string_expr(checked<string_item>(ptr, "a string")); }
+    CORE_EXPORT context::operator var_expr() const { return var_expr(checked<var_item>(ptr, "an object")); }
 
     expr::expr(item *const ptr) : context(ptr) {}
     CORE_EXPORT item &expr::operator*() const { return *static_cast<item *>(ptr); }
